@@ -1,6 +1,6 @@
 (* C15 -- non-vacuity and concrete instances. *)
 From Coq Require Import ZArith List Bool Lia Sorted.
-From Verif.C15 Require Import Model Spec Proofs.
+From Verif.C15 Require Import Model Spec Proofs Proofs2 Proofs3.
 Import ListNotations.
 Open Scope Z_scope.
 
@@ -116,3 +116,23 @@ Example ex_history :
   hist_run ex3_bs ex3_bidx [1; -2; 3; 2] [OpQuery; OpSet [9; 9; 9]; OpQuery; OpSet [5; 6; 7; 8]; OpQuery] = [5; 6; 7; 8] /\
   asmatrix ex3_bs ex3_bidx [5; 6; 7; 8] <> asmatrix ex3_bs ex3_bidx [1; -2; 3; 2].
 Proof. vm_compute. repeat split; discriminate. Qed.
+
+(* hypotheses of the final-round theorems are satisfiable *)
+Example ex_knot_vector : knot_vector ex_kv 2.
+Proof.
+  split. - vm_compute. repeat constructor; discriminate.
+  - intros i Hi. simpl in Hi. do 7 (destruct i as [|i]; [vm_compute; reflexivity|]). lia.
+Qed.
+Example ex_transpose_idx : NoDup [(0, 1); (1, 0); (2, 2); (1, 2); (2, 1)] /\
+  transpose_idx [(0, 1); (1, 0); (2, 2); (1, 2); (2, 1)] = Some [1; 0; 2; 4; 3] /\
+  transpose_idx [(0, 1); (2, 2)] = None.
+Proof.
+  split; [|vm_compute; auto].
+  repeat constructor; simpl; intros H; repeat (destruct H as [H|H]; [discriminate|]); auto.
+Qed.
+Definition ex_As : list (list (list Z)) := [[[0; 2; 0]; [3; 0; 1]; [0; 7; 0]]; [[2; 9; 0; 0]; [0; 2; 9; 0]; [0; 0; 2; 9]]].
+Example ex_rect : Forall rect ex_As.
+Proof. repeat constructor; simpl; lia. Qed.
+Example ex_kron_rec : kron_rec ex_As 4 9 = 2 /\ kron_rec ex_As 4 0 = 0 /\
+  kron_partial ex_As [4; 1] false = Some [((1, 5), 4); ((1, 6), 18); ((4, 1), 6); ((4, 2), 27); ((4, 9), 2); ((4, 10), 9)].
+Proof. vm_compute. auto. Qed.
